@@ -190,6 +190,7 @@ def uid_task(ctx):
     n = _arg(ex, "str", "n")
     g0 = st0.g(me)
     for i, o in enumerate(verify.bind_and_run(ex, fn, st0, {"self": me, "n": n})):
+        i = o.st.pathid()
         if o.kind != "return":
             ctx.oblige(f"{qual}[str]/post#{i}:never-raises", o.st.pc, z3.BoolVal(False), "post")
             continue
